@@ -1588,8 +1588,7 @@ func (l *lexer) scanCmdSubst(r rune) bool {
 		if ll.err != nil {
 			l.mu.Lock()
 			l.err = ll.err
-			if len(ll.stack) == 0 && r == '`' {
-				err := l.err.(Error)
+			if err, ok := l.err.(Error); ok && len(ll.stack) == 0 && r == '`' {
 				l.err = Error{
 					Name: err.Name,
 					Pos:  err.Pos,
